@@ -145,6 +145,32 @@ for radius in (False, True):
     mk()
 
 
+@obligation('C18.random_filter.batched', functions=[f'{GEO}:random_filter'], max_paths=8, first_path_only=True,
+            note='randperm by contract: an arbitrary permutation (here a fixed one; the clause does not depend on which)')
+def random_filter_batched(env):
+    """random_filter on a BATCH of clouds (..., N, D): every returned point of cloud b is one of the input points of cloud b, no point
+    is returned twice, num points per cloud"""
+    geo = env.load(GEO); T = env.T
+    B, N, D, num = 2, 3, 2, 2
+    P = T.stack([cloud(env, f'c{b}_', N, D) for b in range(B)], 0)
+    if env.sym:
+        env.stub(T, 'randperm', lambda n, **k: T.tensor([2, 0, 1][:n] if n == 3 else list(range(n))[::-1]))
+    out = geo.random_filter(P, num)
+    env.holds('shape (..., num, D)', tuple(out.shape) == (B, num, D))
+    if env.sym:
+        from pvc import storch as st
+        row = lambda t: tuple(st._T(t)._a.flat)
+        same = lambda u, v: all(x.same(y) for x, y in zip(row(u), row(v)))
+    else:
+        same = lambda u, v: bool((u == v).all())
+    own = all(any(same(out[b, i], P[b, j]) for j in range(N)) for b in range(B) for i in range(num))
+    env.holds('every returned point is an input point of the SAME cloud', own)
+    picks = [[[j for j in range(N) if same(out[b, i], P[b, j])] for i in range(num)] for b in range(B)]
+    env.holds('no input point is returned twice', own and all(len({p_[0] for p_ in pk}) == num for pk in picks))
+    if env.sym:
+        env.holds('nothing but selection: the entries are the input entries themselves', own)
+
+
 @bounded('C18.brute_force', functions=[f'{GEO}:knn', f'{GEO}:nbr_filter', f'{GEO}:knn_filter', f'{GEO}:voxel_filter', f'{GEO}:random_filter'])
 def brute(rng, tier):
     """real code vs brute force: 1..300 points, dims 1..6 (+ feature channels), norms 1/2/inf, outliers at random positions, permutations"""
